@@ -11,7 +11,9 @@
      PR : how the EDIF.properties of two matched instances are related
      WR : how the two pin lists of the wire at the same index of two matched cables are related
    and four instances are used:
-     nv_equiv       = nv_rel props_eq  wire_perm  same properties, same pins on every wire
+     nv_equiv       = nv_rel props_eq  wire_perm  same properties (same number of entries, same
+                                                  keys, ==-equal values), same pins on every wire
+                                                  - what the comparer decides
      nv_equiv_ord   = nv_rel props_eq  eq         ... and the pins of every wire in the same order
      nv_covered_set = nv_rel props_sub wire_perm  like nv_equiv but the properties of the first
                                                   netlist only have to occur in the second
@@ -52,7 +54,14 @@ Definition props_sub (pa pb : option (list pdict)) : Prop :=
   (pa <> None -> pb <> None) /\
   forall x k v, prop_at pa x k = Some v -> exists v', prop_at pb x k = Some v' /\ pval_eqb v v' = true.
 
-Definition props_eq (pa pb : option (list pdict)) : Prop := props_sub pa pb /\ props_sub pb pa.
+(* the same properties: EDIF.properties absent on both sides, or two lists with the same number
+   of entries, and every property (entry, key) of either is a property of the other with an
+   equal value *)
+Definition props_len (p : option (list pdict)) : option nat :=
+  match p with Some l => Some (length l) | None => None end.
+
+Definition props_eq (pa pb : option (list pdict)) : Prop :=
+  props_len pa = props_len pb /\ props_sub pa pb /\ props_sub pb pa.
 
 (* ---------- instances: name, original identifier, reference (definition, library), properties *)
 Definition inst_rel (PR : option (list pdict) -> option (list pdict) -> Prop) (i j : inst) : Prop :=
@@ -83,15 +92,3 @@ Definition nv_equiv : nv -> nv -> Prop := nv_rel props_eq wire_perm.
 Definition nv_equiv_ord : nv -> nv -> Prop := nv_rel props_eq (@eq wire).
 Definition nv_covered : nv -> nv -> Prop := nv_rel props_sub (@eq wire).
 Definition nv_covered_set : nv -> nv -> Prop := nv_rel props_sub wire_perm.
-
-(* ---------- the one hole of the comparer inside the named fragment ----------
-   wherever an instance of the first netlist and an instance of the second sit at the same
-   place (same library name, definition name, instance name; or both are the top instance),
-   the second has no property that the first lacks *)
-Definition no_extra_props (a b : nv) : Prop :=
-  (forall ta tb, n_top a = Some ta -> n_top b = Some tb -> props_sub (i_props tb) (i_props ta)) /\
-  (forall la lb da db ia ib,
-     In la (n_libs a) -> In lb (n_libs b) -> l_name la = l_name lb ->
-     In da (l_defs la) -> In db (l_defs lb) -> d_name da = d_name db ->
-     In ia (d_insts da) -> In ib (d_insts db) -> i_name ia = i_name ib ->
-     props_sub (i_props ib) (i_props ia)).
